@@ -50,6 +50,7 @@ func main() {
 		}
 	}
 	fn(c)
+	c.ConcurrentReplay()
 	c.Flush()
 	c.out.Flush()
 	f.Close()
